@@ -6,7 +6,12 @@
 
 use std::collections::BTreeMap;
 use std::os::fd::AsRawFd;
+#[cfg(not(feature = "verif"))]
 use std::sync::{Arc, Condvar, Mutex};
+#[cfg(feature = "verif")]
+use std::sync::Arc;
+#[cfg(feature = "verif")]
+use crate::verif::sync::{Condvar, Mutex};
 
 use libc::{MAP_FAILED, MAP_FIXED, MAP_SHARED, PROT_READ, PROT_WRITE};
 use libc::{c_uchar, c_void, size_t};
